@@ -54,7 +54,10 @@ impl Step {
     }
 }
 
-const PRIMS: &[&str] = &["0", "1", "-1", "2", "-2", "7", "10", "100", "-128", "255", "65535", "-2147483648", "4294967295", "9223372036854775807", "-9223372036854775808", "18446744073709551615", "170141183460469231731687303715884105727"];
+const PRIMS: &[&str] = &["0", "1", "-1", "2", "-2", "7", "10", "100", "-128", "255", "65535", "-2147483648", "4294967295", "9223372036854775807", "-9223372036854775808", "18446744073709551615", "170141183460469231731687303715884105727",
+    // each width's other extreme and the first values past a narrower type: i8/i16 limits, 2^32, 2^63, 2^64, i128::MIN, 2^127, u128::MAX
+    "127", "-32768", "32767", "4294967296", "9223372036854775808", "18446744073709551616", "-170141183460469231731687303715884105728",
+    "170141183460469231731687303715884105728", "340282366920938463463374607431768211455", "340282366920938463463374607431768211455"];
 
 fn gen_operand(r: &mut Rng, acc: &Dec, history: &[Dec]) -> Dec {
     match r.below(10) {
